@@ -280,6 +280,53 @@ fn check_arith(c: &Arith, rec: &mut Rec) -> Verdict {
     Verdict::Pass
 }
 
+/// A product or quotient does not depend on what was computed just before it: all (pair, operator) combinations with
+/// a database result, interleaved with ratio-like ones (`meter / foot`, `second * hertz`) in a seed-dependent order,
+/// answer what they answer when asked first.
+fn muldiv_history(ctx: &mut Ctx) {
+    let table = unit_table();
+    let show = |r: &Result<&'static Unit, String>| match r {
+        Ok(u) => format!("Ok({})", u.name()),
+        Err(_) => "Err".to_string(),
+    };
+    // (a, b, is_mul, lone answer): every combination that yields a unit, plus same-dimension pairs (their quotient has
+    // the all-zero dimension) and a stride of the rest
+    let mut combos: Vec<(&'static Unit, &'static Unit, bool, String)> = vec![];
+    for (i, (_, a)) in table.iter().enumerate() {
+        for (j, (_, b)) in table.iter().enumerate() {
+            let same_dim = a.dimensions.is_some() && a.dimensions == b.dimensions;
+            for mul in [true, false] {
+                let r = (if mul { *a * *b } else { *a / *b }).map_err(|e| e.to_string());
+                if r.is_ok() || (same_dim && (i * 31 + j) % 7 == 0) || (i * 131 + j * 17) % 997 == 0 {
+                    combos.push((*a, *b, mul, show(&r)));
+                }
+            }
+        }
+    }
+    // a seed-dependent permutation (multiplicative hash order), then walk it twice
+    let n = combos.len();
+    let mut order: Vec<usize> = (0..n).collect();
+    let k = ctx.seed.wrapping_mul(0x9E37_79B9_7F4A_7C15) | 1;
+    order.sort_by_key(|i| (*i as u64).wrapping_mul(k).rotate_left(23) ^ k);
+    for pass in 0..2 {
+        for &i in &order {
+            ctx.rec.evals += 1;
+            let (a, b, mul, want) = &combos[i];
+            let got = show(&(if *mul { *a * *b } else { *a / *b }).map_err(|e| e.to_string()));
+            if &got != want {
+                ctx.report(
+                    "muldiv-history",
+                    Verdict::fail("C16:mul-div:depends-on-history", format!("{} {} {} = {got} in a sequence of other products / quotients (pass {pass}), {want} when asked on its own", a.name(), if *mul { "*" } else { "/" }, b.name())),
+                    json!({"a": a.name(), "b": b.name(), "mul": mul}),
+                );
+                return;
+            }
+        }
+    }
+    ctx.rec.class_n("mul-div:history-order-combinations", n as u64);
+    ctx.rec.nontrivial(key_of(&format!("muldiv-history:{}", ctx.seed)));
+}
+
 /// Unit products and quotients asked by several threads at once, each thread repeating its own pair: every answer is
 /// the answer a lone thread gets (the look-up shares no mutable state that one thread could see half-updated).
 fn concurrent_muldiv(ctx: &mut Ctx) {
@@ -341,10 +388,11 @@ fn concurrent_muldiv(ctx: &mut Ctx) {
 }
 
 pub fn run(ctx: &mut Ctx) {
-    ctx.rule("enumerated exhaustively: all ordered pairs of database units x 7 magnitudes (+ 5 extreme ones: 1e-300, -1e-305, 1e300, +-INF, checked for success, not-NaN and 1e-6 agreement where the result is a normal number): convert_to is Ok iff units.txt gives both the same dimension vector, equals ((x*sa+oa)-ob)/sb within 1e-9 relative to the operands, and converts back to x; a*b and a/b: when Ok the result is a database unit with dimension = sum/difference and scale within 1e-3 of product/quotient, and eight threads each repeating its own pair 20 000 times get the lone-thread answer; generated: pairs of Numbers over all units: + and - keep the common unit and the exact sum/difference, fail for two different units (with one bare operand: if accepted, the result carries the one unit in play and the exact value), * and / agree with the unit operators; non-trivial: different units of one dimension / Ok product or quotient / generated Number pair; distinct by names");
+    ctx.rule("enumerated exhaustively: all ordered pairs of database units x 7 magnitudes (+ 5 extreme ones: 1e-300, -1e-305, 1e300, +-INF, checked for success, not-NaN and 1e-6 agreement where the result is a normal number): convert_to is Ok iff units.txt gives both the same dimension vector, equals ((x*sa+oa)-ob)/sb within 1e-9 relative to the operands, and converts back to x; a*b and a/b: when Ok the result is a database unit with dimension = sum/difference and scale within 1e-3 of product/quotient, the combinations with a result (plus ratio-like ones) give the same answers in a seed-dependent interleaved order, and eight threads each repeating its own pair 20 000 times get the lone-thread answer; generated: pairs of Numbers over all units: + and - keep the common unit and the exact sum/difference, fail for two different units (with one bare operand: if accepted, the result carries the one unit in play and the exact value), * and / agree with the unit operators; non-trivial: different units of one dimension / Ok product or quotient / generated Number pair; distinct by names");
     ctx.assume("dimension, scale and offset come from unit-gen/units.txt, not from the table under test; tolerance 1e-9 relative is ~7 orders above the worst rounding observed");
     enumerate(ctx);
     concurrent_muldiv(ctx);
+    muldiv_history(ctx);
     let n = unit_table().len();
     ctx.run_sub::<Arith>(
         "number-arith",
@@ -363,6 +411,15 @@ pub fn run(ctx: &mut Ctx) {
 
 pub fn replay(kind: &str, case: &J, rec: &mut Rec) -> Verdict {
     match kind {
+        "muldiv-history" => {
+            let mut c = Ctx::new("C16", crate::runner::Tier::Quick, 1);
+            muldiv_history(&mut c);
+            if c.violations.is_empty() {
+                Verdict::Pass
+            } else {
+                Verdict::fail("C16:mul-div:depends-on-history", "a product / quotient depends on what was computed before it")
+            }
+        }
         "concurrent-muldiv" => {
             let mut c = Ctx::new("C16", crate::runner::Tier::Quick, 1);
             concurrent_muldiv(&mut c);
